@@ -1,7 +1,7 @@
 #!/bin/sh
 # usage: run_all.sh [tier] [props...]  - runs the registered checks one after another on /repo as it is
 TIER="${1:-quick}"; shift 2>/dev/null
-cd /verif
+cd "$(dirname "$0")/.."
 PROPS="$@"
 [ -z "$PROPS" ] && PROPS=$(python3 -c "
 import json
